@@ -10,6 +10,8 @@ pub mod c09;
 pub mod c10;
 pub mod c11;
 pub mod c12;
+pub mod c13;
+pub mod c14;
 pub mod c15;
 
 use crate::Ctx;
@@ -29,6 +31,8 @@ pub fn run(id: &str, ctx: &Ctx) -> i32 {
         "C10" => c10::run(ctx),
         "C11" => c11::run(ctx),
         "C12" => c12::run(ctx),
+        "C13" => c13::run(ctx),
+        "C14" => c14::run(ctx),
         "C15" => c15::run(ctx),
         _ => {
             eprintln!("unknown property {}", id);
@@ -51,6 +55,8 @@ pub fn replay(id: &str, ctx: &Ctx, v: &Value) -> i32 {
         "C10" => c10::replay(ctx, v),
         "C11" => c11::replay(ctx, v),
         "C12" => c12::replay(ctx, v),
+        "C13" => c13::replay(ctx, v),
+        "C14" => c14::replay(ctx, v),
         "C15" => c15::replay(ctx, v),
         _ => {
             eprintln!("unknown property {}", id);
